@@ -296,7 +296,7 @@ func TestVerifC20(t *testing.T) {
 			return &c20SeqCase{Sizes: rapid.SliceOfN(sizeGen, 1, 120).Draw(rt, "sizes")}
 		},
 		Run: c20RunSeq}
-	s := seq.Main(t, vkit.Scale(400, 20000))
+	s := seq.Main(t, vkit.Scale(400, 5000))
 	if !vkit.Replaying() {
 		s.Note("reserve size %d bytes", placeHolderIns.max-placeHolderIns.min)
 		s.Done()
@@ -309,7 +309,7 @@ func TestVerifC20(t *testing.T) {
 				Start: rapid.IntRange(0, 1<<20).Draw(rt, "start")}
 		},
 		Run: c20RunConc}
-	s = conc.Main(t, vkit.Scale(60, 1500))
+	s = conc.Main(t, vkit.Scale(60, 300))
 	if !vkit.Replaying() {
 		s.Done()
 	}
@@ -321,7 +321,7 @@ func TestVerifC20(t *testing.T) {
 			return &c20AcqCase{Sizes: rapid.SliceOfN(g, 1, 12).Draw(rt, "sizes")}
 		},
 		Run: c20RunAcquire}
-	s = acq.Main(t, vkit.Scale(300, 6000))
+	s = acq.Main(t, vkit.Scale(300, 2000))
 	if !vkit.Replaying() {
 		s.Done()
 	}
@@ -347,7 +347,7 @@ func TestVerifC20Rlimit(t *testing.T) {
 func c20Parent(t *testing.T) {
 	s := vkit.NewStats("C20", "acquire-mmap-failing")
 	defer s.Flush()
-	rounds := vkit.Scale(6, 40)
+	rounds := vkit.Scale(6, 16)
 	for r := 0; r < rounds; r++ {
 		g := 2 + int((vkit.Seed()+uint64(r)*5)%15)
 		cmd := exec.Command(os.Args[0], "-test.run", "^TestVerifC20Rlimit$", "-test.v")
